@@ -1,4 +1,4 @@
-import BppProofs.Lemmas.NumDerivNoRaise
+import BppProofs.Lemmas.NumDerivDeleg
 /-!
 # C12 — numerical derivatives are transparent and exact on low-degree polynomials
 
@@ -386,5 +386,110 @@ theorem one_sided_no_raise (f : List ℝ → ℝ) (w : W ℝ) (e : Entry ℝ) (h
     · have := update3_noexc f ({ w with fn := fn1 } : W ℝ) pl o1 o2 hfi.feas hsy hnd hvars hin1 hh hcx
       simp only [hs] at this ⊢
       exact this
+
+
+/-! ## 6. Delegation of the variables that are not selected -/
+
+/-- `delegation_spec`: for a variable that is not selected (or when numerical first-order
+derivatives are switched off) the wrapper hands out what the wrapped function answers, when the
+wrapped function is first-order derivable (`kind ≥ 1`); otherwise it raises. -/
+theorem delegation_spec (D : Deriv ℝ) (w : W ℝ) (n : Name) (hsel : idx w.vars n = none ∨ w.c1 = false) :
+    w.getD1 D n = if w.fn.kind ≥ 1 then (w.fn.getD1 D n).map some else .error .bpp := by
+  unfold W.getD1
+  rcases hsel with h | h
+  · rw [h]
+  · cases hi : idx w.vars n with
+    | none => rfl
+    | some i => simp only [h, Bool.false_eq_true, if_false]
+
+/-- the same for second-order and cross derivatives (second-order derivable wrapped function) -/
+theorem delegation_spec_d2 (D : Deriv ℝ) (w : W ℝ) (n : Name) (hs : w.scheme ≠ .two)
+    (hsel : idx w.vars n = none ∨ w.c2 = false) :
+    w.getD2 D n = if w.fn.kind ≥ 2 then (w.fn.getD2 D n).map some else .error .bpp := by
+  unfold W.getD2
+  rw [if_neg hs]
+  rcases hsel with h | h
+  · rw [h]
+  · cases hi : idx w.vars n with
+    | none => rfl
+    | some i => simp only [h, Bool.false_eq_true, if_false]
+
+theorem delegation_spec_cross (D : Deriv ℝ) (w : W ℝ) (n m : Name) (hs : w.scheme = .three)
+    (hsel : idx w.vars n = none ∨ idx w.vars m = none ∨ w.cx = false) :
+    w.getDX D n m = if w.fn.kind ≥ 2 then (w.fn.getDX D n m).map some else .error .bpp := by
+  unfold W.getDX
+  rw [if_neg (by rw [hs]; exact fun h => h rfl)]
+  rcases hsel with h | h | h
+  · rw [h]
+  · rw [h]; cases idx w.vars n <;> rfl
+  · cases hi : idx w.vars n with
+    | none => rfl
+    | some i =>
+      cases hj : idx w.vars m with
+      | none => rfl
+      | some j => simp only [h, Bool.false_eq_true, if_false]
+
+/-- the wrapped function's answer: the analytical derivative at the point where it was computed -/
+theorem delegation_value (D : Deriv ℝ) (fn : Fn ℝ) (n : Name) (k : Nat) (hen : fn.en1 = true)
+    (hpos : posOf fn.params n = some k) : fn.getD1 D n = .ok (D.d1 k fn.pt1) := by
+  unfold Fn.getD1; simp [hen, hpos]
+
+/-- `delegation_fresh`: an entry point that returns normally leaves the analytical first-order
+derivatives of the wrapped function switched on iff the wrapper has first-order derivatives on,
+and computed at the requested point — provided they were consistent before the call (`en1 = c1`,
+i.e. the flags of the wrapper were not toggled since its last update; `Fresh1`) and the value at
+the requested point is not "too large" (in that branch the code returns with the analytical
+derivatives left switched off).  Both conclusions are again the hypotheses for the next call. -/
+theorem delegation_fresh (f : List ℝ → ℝ) (w : W ℝ) (e : Entry ℝ) (hown : Own w.fn) (hok : w.fn.OK f) (he : e.Nodup)
+    (hk : w.fn.kind ≥ 1) (hcons : w.fn.en1 = w.c1) (hfr : Fresh1 w.fn)
+    (hnb : tooBig (f (values (e.apply w.fn.params))) = false) (hret : (w.call f e).2.1 = none) :
+    (w.call f e).1.fn.en1 = (w.call f e).1.c1 ∧ Fresh1 (w.call f e).1.fn ∧ (w.call f e).1.c1 = w.c1 := by
+  obtain ⟨h0, _, _, _, _, hkeep⟩ := call_spec f w e hown hok he hret
+  have hpar := forward_params f w.fn e hown he h0
+  unfold W.call at hret ⊢
+  rcases hfw : w.fn.forward f e with ⟨fn1, x, b⟩
+  rw [hfw] at hret h0 hpar
+  simp only [] at h0 hpar
+  subst h0
+  simp only [] at hret ⊢
+  obtain ⟨o1, o2, o3, pl, hl, hsy, hnd⟩ := forward_spec f w.fn e hown hok he _ hfw rfl
+  simp only [] at o1 o2 o3 hl hsy
+  have hff := hfr.forward (f := f) e
+  rw [hfw] at hff
+  simp only [] at hff
+  rw [hl] at hret ⊢
+  simp only [] at hret ⊢
+  have := update_fresh f ({ w with fn := fn1 } : W ℝ) pl o1 o2 hsy hnd (by simpa [o3] using hk)
+    (by simpa using hff.2.trans hcons) hff.1 (by simpa [hpar] using hnb) hret
+  have hc1 : (({ w with fn := fn1 } : W ℝ).update f pl).1.c1 = w.c1 :=
+    (update_spec f ({ w with fn := fn1 } : W ℝ) pl o1 o2 hsy hnd _ rfl hret).2.2.1.c1
+  exact ⟨by rw [this.1, hc1], this.2, hc1⟩
+
+/-- end to end: after such a call with first-order derivatives on, the derivative the wrapper
+hands out for a non-selected parameter of the wrapped function is the analytical one at the
+requested point -/
+theorem delegation_end_to_end (f : List ℝ → ℝ) (D : Deriv ℝ) (w : W ℝ) (e : Entry ℝ) (hown : Own w.fn) (hok : w.fn.OK f)
+    (he : e.Nodup) (hk : w.fn.kind ≥ 1) (hc1 : w.c1 = true) (hcons : w.fn.en1 = w.c1) (hfr : Fresh1 w.fn)
+    (hnb : tooBig (f (values (e.apply w.fn.params))) = false) (hret : (w.call f e).2.1 = none)
+    (n : Name) (k : Nat) (hsel : idx w.vars n = none) (hpos : posOf w.fn.params n = some k) :
+    (w.call f e).1.getD1 D n = .ok (some (D.d1 k (values (e.apply w.fn.params)))) := by
+  obtain ⟨a, b, c⟩ := delegation_fresh f w e hown hok he hk hcons hfr hnb hret
+  obtain ⟨t1, _, _, _, _⟩ := transparent f w e hown hok he hret
+  obtain ⟨_, _, _, _, _, hkeep⟩ := call_spec f w e hown hok he hret
+  have hsel' : idx (w.call f e).1.vars n = none := by rw [hkeep.vars]; exact hsel
+  rw [delegation_spec D _ n (Or.inl hsel'), if_pos (by rw [hkeep.kind]; exact hk)]
+  have hen : (w.call f e).1.fn.en1 = true := by rw [a, c, hc1]
+  have hpos' : posOf (w.call f e).1.fn.params n = some k := by
+    rw [t1]
+    -- positions only depend on names, which `apply` keeps
+    have hn : names (e.apply w.fn.params) = names w.fn.params := by
+      cases e <;> simp only [Entry.apply, names_updL, names_upd1]
+    unfold posOf at hpos ⊢
+    have hfi : ∀ l : PList ℝ, List.findIdx (fun p => p.name == n) l = List.findIdx (fun x => x == n) (names l) := by
+      intro l; unfold names; rw [List.findIdx_map]; rfl
+    have hlen : ∀ l : PList ℝ, l.length = (names l).length := by intro l; simp [names]
+    rw [hfi, hlen, hn, ← hfi, ← hlen]; exact hpos
+  rw [delegation_value D _ n k hen hpos', b hen, t1]
+  rfl
 
 end Bpp.C12
